@@ -647,7 +647,7 @@ func (s *scenario) analyse(p *pair) analysis {
 	a := analysis{pattern: s.prevPattern(p)}
 	if p.invalid != "" {
 		a.cls, a.reason = mustReject, "document violates: "+p.invalid
-		a.violKey = "C09/invalid-document-accepted/" + p.invalid
+		a.violKey = "C09/invalid-document-accepted/" + ruleSite(p.invalid) // rule names carry their variant after a '/'
 		if strings.HasPrefix(p.invalid, "embedded-method-") {
 			a.violKey = "C09/validator/embedded-relationship-method"
 		}
@@ -1241,7 +1241,8 @@ func TestCheck(t *testing.T) {
 	defer r.Finish()
 	r.SetRule("cases = (transaction, document) pairs signed by the harness and submitted to a real dag.State (prevs + signature verifiers) with the real did:nuts ambassador subscribed on it, " +
 		"over generated histories (creations, own-key updates, key removal/demotion, deactivation, controllers, controller key removal/deactivation, controller change, controller chains of depth 1-6, " +
-		"every validator rule, seeded random walks), prevs orderings permuted. Each pair is classified MUST-ACCEPT/MUST-REJECT/UNSPECIFIED from the property text with the harness' shadow of accepted versions; " +
+		"every validator rule - the uniqueness rules also with realistic mixed-case / non-ASCII service types and fragments in several positions -, update-style transactions for DIDs without any known version " +
+		"whose payload claims the signer's DID as controller or the signer's key as its own, seeded random walks), prevs orderings permuted. Each pair is classified MUST-ACCEPT/MUST-REJECT/UNSPECIFIED from the property text with the harness' shadow of accepted versions; " +
 		"every rejection is compared by before/after snapshots of everything resolvable for all DIDs of the scenario. A case is non-trivial when the pair reached the real code with a decided outcome " +
 		"(and, for updates, the store held at least one accepted version); distinct by (kind, roles of the prevs in order, class, outcome, rejecting layer).")
 	r.Require(r.Pick(100, 1000), r.Pick(40, 150))
@@ -1323,7 +1324,7 @@ func TestCheck(t *testing.T) {
 			for _, v := range c.viol {
 				r.Violation(v.key, v.what, v.witness)
 			}
-			if !sampled[c.kind] && (strings.Contains(c.kind, "removed-key") || strings.Contains(c.kind, "foreign-key") || strings.Contains(c.kind, "invalid-document") || strings.Contains(c.kind, "controller-key")) {
+			if !sampled[c.kind] && (strings.Contains(c.kind, "removed-key") || strings.Contains(c.kind, "foreign-key") || strings.Contains(c.kind, "invalid-document") || strings.Contains(c.kind, "controller-key") || strings.Contains(c.kind, "unknown-did")) {
 				sampled[c.kind] = true
 				r.Sample(map[string]any{"scenario": c.scenario, "kind": c.kind, "prevs": c.pattern, "class": c.an.cls.String(), "reason": c.an.reason, "outcome": c.out.layer, "error": c.out.err, "snapshot_entries": c.snapN})
 			}
